@@ -87,7 +87,11 @@
 		{{- end }}
 		http.SetCookie(w, &http.Cookie{
 			Name: {{ printf "%q" .HTTPName }},
+			{{- if (and (isAliased .FieldType) (eq .Type.Name "string")) }}
+			Value: string({{ .VarName }}),
+			{{- else }}
 			Value: {{ .VarName }},
+			{{- end }}
 			{{- if .MaxAge }}
 			MaxAge: {{ .MaxAge }},
 			{{- end }}
